@@ -19,9 +19,25 @@ func isCtxErrCall(in ssa.Instruction) (*ssa.Call, bool) {
 	return c, strings.HasSuffix(c.Call.Value.Type().String(), "context.Context")
 }
 
-// isCtxPollInstr: ctx.Err(), or ctx.Done() used as a case of a select (non-blocking receive).
+// isCtxCauseCall: context.Cause(ctx) - a poll whose answer is whatever reason the canceller recorded, not ctx.Err().
+func isCtxCauseCall(in ssa.Instruction) (*ssa.Call, bool) {
+	c, ok := in.(*ssa.Call)
+	if !ok {
+		return nil, false
+	}
+	f := c.Call.StaticCallee()
+	if f == nil || f.Name() != "Cause" || core.FnPkg(f) == nil || core.FnPkg(f).Path() != "context" {
+		return nil, false
+	}
+	return c, true
+}
+
+// isCtxPollInstr: ctx.Err(), context.Cause(ctx), or ctx.Done() used as a case of a select (non-blocking receive).
 func isCtxPollInstr(in ssa.Instruction) (*ssa.Call, bool) {
 	if c, ok := isCtxErrCall(in); ok {
+		return c, true
+	}
+	if c, ok := isCtxCauseCall(in); ok {
 		return c, true
 	}
 	c, ok := in.(*ssa.Call)
@@ -156,6 +172,9 @@ func pollsOf(fn *ssa.Function, ep *errProv) []pollInfo {
 	for _, b := range fn.Blocks {
 		for _, in := range b.Instrs {
 			c, ok := isCtxErrCall(in)
+			if !ok {
+				c, ok = isCtxCauseCall(in)
+			}
 			if !ok || inDone[b] {
 				continue // (an Err() call on the taken branch of a Done poll is that poll's way of naming the cause)
 			}
